@@ -88,3 +88,104 @@ class C03(CertProperty):
 
 
 ALL.update({c.ID: c for c in [C02, C03]})
+
+
+import os, json
+from common import *
+
+
+def enc_dfa_py(d):
+    out = []
+    for es, f in zip(d['states'], d['end']):
+        row = [1 if f[0] else 0, f[1]]
+        for cc, t in sorted(set((e[0], e[1]) for e in es)):
+            row += [cc, t]
+        out.append(row)
+    return out
+
+
+def random_dfa(rng, maxn=12):
+    n = rng.randint(1, maxn)
+    ncls = rng.randint(1, 4)
+    states = []
+    for q in range(n):
+        es = []
+        for _ in range(rng.randint(0, 3)):
+            es.append([rng.randrange(ncls), rng.randrange(n)])
+        states.append(es)
+    ntok = rng.randint(1, 3)
+    end = []
+    for q in range(n):
+        acc = rng.random() < 0.35
+        end.append([acc, rng.randrange(ntok) if acc else 0])
+    return {'states': states, 'end': end, 'tids': list(range(ntok)), 'las': []}
+
+
+class C03Full(C03):
+    """Adds the correspondence between the transcribed minimizer and the real one."""
+    THEOREMS = [('Properties.C03', ['C03_minimize_preserves', 'C03_minimize_preserves_N', 'C03_first_state_is_start',
+                                    'C03_not_larger', 'C03_minimize_total', 'C03_minimize_none_iff',
+                                    'C03_quotient_certificate', 'C03_example_merge', 'C17_wrap_miscompiles',
+                                    'C03_pair_checker_sound', 'C03_all_strings'])]
+
+    def explore(self, rng, tier, rdir, out, replay=None):
+        stats = C03.explore(self, rng, tier, rdir, out, replay)
+        # correspondence: Coq minimize vs Minimizer::minimize on recorded inputs and on arbitrary automata
+        pairs = []
+        rf = os.path.join(rdir, 'sweep.results.jsonl')
+        for l in open(rf):
+            r = json.loads(l)
+            for a, b in r.get('minlog', []):
+                pairs.append((a, b))
+        pairs = pairs[:400 if tier == 'quick' else 4000]
+        nrand = 150 if tier == 'quick' else 3000
+        rand = [random_dfa(rng) for _ in range(nrand)]
+        res = run_harness([{'kind': 'minimize', 'dfa': d} for d in rand], rdir, 'minimize')
+        for d, r in zip(rand, res):
+            if 'out' in r:
+                pairs.append((d, r['out']))
+            else:
+                out.violations.append({'property': 'C03', 'what': 'Minimizer::minimize panicked on a well-formed automaton', 'dfa': d, 'panic': r.get('panic')})
+        shards = [pairs[k:k + 60] for k in range(0, len(pairs), 60)]
+        paths = []
+        for n, sh_ in enumerate(shards):
+            p = os.path.join(rdir, 'mincorr_%03d.v' % n)
+            with open(p, 'w') as f:
+                f.write('From Scnr Require Import Base Automaton Minimizer.\nOpen Scope N_scope.\nSet Printing Depth 1000000.\nSet Printing Width 1000000.\n')
+                terms = []
+                for a, _ in sh_:
+                    terms.append('(minimize_enc 32 %s)' % dfa_term(a).replace('mk_dfa', 'mk_dfa_min'))
+                f.write('Eval vm_compute in %s.\n' % clist(['\n ' + t for t in terms]))
+            paths.append(p)
+        outs = coq_eval_files(paths)
+        agree = 0
+        for sh_, (rc, o), p in zip(shards, outs, paths):
+            if rc != 0:
+                out.broken.append({'what': 'coqc failed on %s' % p, 'detail': o[-2000:]})
+                continue
+            vals = parse_coq_value(o)
+            for (a, b), v in zip(sh_, vals):
+                if v == enc_dfa_py(b):
+                    agree += 1
+                else:
+                    out.broken.append({'what': 'correspondence: transcribed minimizer differs from Minimizer::minimize',
+                                       'detail': {'input': a, 'impl': enc_dfa_py(b), 'model': v}})
+        stats['minimizer_model_comparisons'] = len(pairs)
+        stats['minimizer_model_agree'] = agree
+        stats['random_automata'] = nrand
+        return stats
+
+
+ALL['C03'] = C03Full
+
+
+# per-property modules delivered separately (lib/prop_cXX.py define PROPS = {id: class})
+import importlib
+for _m in ['prop_c08', 'prop_c13', 'prop_c14', 'prop_c15', 'prop_c16', 'prop_c17', 'prop_c18']:
+    try:
+        _mod = importlib.import_module(_m)
+    except ModuleNotFoundError as e:
+        if e.name != _m:
+            raise
+        continue
+    ALL.update(_mod.PROPS)
